@@ -326,6 +326,7 @@ inductive Origin
 
 inductive Ctx
   | data | attrDq | attrSq | attrJs | script | style
+  | attrUrl   -- a quoted attribute whose value is a URL (`href`, `src`, …)
   deriving DecidableEq, Repr
 
 structure Leaf where
@@ -350,7 +351,9 @@ def Origin.isRestricted : Origin → Bool
 
 /-- The per-leaf requirement of the property.  HTML escaping is the right protection in element text and in
 quoted attribute values; inside a JS string literal (event-handler attribute, `<script>`) it is not, so only text
-with the front end's restricted alphabet may be placed there. -/
+with the front end's restricted alphabet may be placed there.  In a URL attribute HTML escaping protects the attribute
+but nothing percent-encodes the value, so free text (a documentation comment) may not be placed there at all: only
+names, numbers and the ids / links made from names, whose alphabet needs no encoding and cannot form a scheme. -/
 def Leaf.ok (l : Leaf) : Bool :=
   match l.origin with
   | .macro => l.ctx == .data
@@ -360,6 +363,7 @@ def Leaf.ok (l : Leaf) : Bool :=
     l.escaped && (match l.ctx with
       | .data | .attrDq | .attrSq => true
       | .attrJs | .script => l.origin.isRestricted
+      | .attrUrl => l.origin != .doc
       | .style => false)
 
 /-- Consistency of a term with the leaf table: `chars n` only for leaves that are escaped or constant,
